@@ -394,6 +394,26 @@ class C04(OwnProfile):
         "node to another parent; distinct by op-kind sequence hash."
     )
 
+    def gen_family(self, w, r, fam):
+        # "separately constructed nodes never share ... attributes": two intervals built from ONE
+        # caller-owned bytearray, which the caller goes on editing
+        if fam == "new" and r.random() < 0.06:
+            k = "s%d" % r.randrange(2)
+            buf = w.shared_bytes.get(k)
+            data = bytes(buf).hex() if buf is not None and len(buf) <= 12 else bytes(r.randrange(256) for _ in range(r.randrange(1, 5))).hex()
+            n = len(data) // 2
+            op = {"op": "new", "kind": "bi", "label": w.fresh("bi"), "uuid": r.getrandbits(128), "shared": k,
+                  "attrs": {"contents": data, "size": n + r.randrange(0, 6)}}
+            secs = w.m.by_kind("sec")
+            if secs and r.random() < 0.7:
+                op["parent"] = secs[r.randrange(len(secs))]
+            return op
+        if fam == "setattr" and w.shared_bytes and r.random() < 0.3:
+            bis = w.m.by_kind("bi")
+            if bis:
+                return {"op": "bytes", "bi": bis[0], "method": "poke_shared", "args": [sorted(w.shared_bytes)[r.randrange(len(w.shared_bytes))]]}
+        return super().gen_family(w, r, fam)
+
     def after(self, w, op, out):
         inv_c04(w)
         if w.deferred is None:
@@ -722,8 +742,18 @@ class C19(OwnProfile):
         if fam == "new" and r.random() < w.cfg.get("p_bad_ctor", 0):
             # construction with more stored bytes than the size: must be rejected
             n = r.randrange(1, 6)
-            return {"op": "new", "kind": "bi", "label": w.fresh("bi"), "uuid": r.getrandbits(128),
-                    "attrs": {"contents": bytes(r.randrange(256) for _ in range(n)).hex(), "size": r.randrange(0, n)}}
+            op = {"op": "new", "kind": "bi", "label": w.fresh("bi"), "uuid": r.getrandbits(128),
+                  "attrs": {"contents": bytes(r.randrange(256) for _ in range(n)).hex(), "size": r.randrange(0, n)}}
+            # ... also when it was asked to join a section and to adopt blocks: a rejected
+            # construction must leave no trace in either
+            secs = w.m.by_kind("sec")
+            if secs and r.random() < 0.6:
+                op["parent"] = secs[r.randrange(len(secs))]
+            blks = w.m.by_kind("cb", "db")
+            if blks and r.random() < 0.5:
+                op["kids"] = {"blocks": r.sample(blks, min(len(blks), r.randrange(1, 3)))}
+                op["kids_style"] = "list"
+            return op
         if fam == "new" and r.random() < 0.15:
             # two intervals built from ONE caller-owned bytearray, which the caller may edit later
             k = "s%d" % r.randrange(2)
